@@ -1,7 +1,63 @@
 // Harness for C05: idempotent-producer scenarios against the simulated cluster whose brokers enforce Kafka's
-// producer-id / epoch / sequence rules; oracles on the broker-side batch log and the partition logs.
+// producer-id / epoch / sequence rules; oracles on the broker-side batch log and the partition logs; and the
+// transaction manager's sequence counters driven directly over many topic-partitions.
 package main
 
-import "verif/harness/pipe"
+import (
+	"fmt"
 
-func main() { pipe.Main("C05", []string{"C05:"}) }
+	"github.com/Shopify/sarama"
+	"verif/harness/hlib"
+	"verif/harness/pipe"
+)
+
+// topics whose names, followed by a partition number, can spell the same string (t/10 ~ t1/0, orders/11 ~ orders1/1, ...)
+var tmTopics = []string{"t", "t1", "t10", "orders", "orders1", "a-b", "a", "x.y"}
+var tmParts = []int32{0, 1, 10, 11, 100, 101}
+
+func txnMgrOps(run *hlib.Run) {
+	nseq := 40
+	if run.Tier == "thorough" {
+		nseq = 2000
+	}
+	for i := 0; i < nseq; i++ {
+		if !run.Mine(i) {
+			continue
+		}
+		r := hlib.NewRand(run.Seed*7919 + uint64(i))
+		tm := sarama.VerifNewTxnMgr()
+		run.Emit("tm reset", "ok")
+		given := map[string]int32{}
+		epoch := int16(0)
+		for k := 0; k < 60; k++ {
+			if r.Chance(1, 12) {
+				tm.Bump()
+				epoch++
+				given = map[string]int32{}
+				run.Emit("tm bump", "ok")
+				continue
+			}
+			ti := r.Intn(len(tmTopics))
+			p := tmParts[r.Intn(len(tmParts))]
+			s, e := tm.Seq(tmTopics[ti], p)
+			op := fmt.Sprintf("tm seq %d %d", ti, p)
+			run.Emit(op, fmt.Sprintf("%d %d", s, e))
+			key := fmt.Sprintf("%d/%d", ti, p)
+			if s != given[key] || e != epoch {
+				run.IOFail("C05:sequence-counter-not-per-partition", fmt.Sprintf("tm %d", i),
+					fmt.Sprintf("topic %q partition %d was given (sequence %d, epoch %d); it had been given %d sequences in epoch %d before", tmTopics[ti], p, s, e, given[key], epoch))
+			}
+			given[key]++
+		}
+		run.Count("txnmgr-sequences")
+	}
+}
+
+func main() {
+	run := hlib.StartParallel("C05", 14)
+	pipe.RunAll(run, "C05", []string{"C05:"}, 0)
+	if run.ReplayLines() == nil {
+		txnMgrOps(run)
+	}
+	run.Finish(pipe.Rule + " || transaction manager: 60 random getAndIncrementSequenceNumber / bumpEpoch calls over 8 topics x 6 partitions whose names collide when concatenated without a separator")
+}
